@@ -20,59 +20,59 @@ NA = {
 CHECKS = {
     "C07": (
         "exploration",
-        "Narrowed to the clauses that meet nondeterminism or faults: (a) repeatable - one scenario executed in 4 worlds differing only in hash-seed class, directory-listing permutation, temp names, cold/warm rule modules, argument order and copy implementation must give identical stdout/stderr/exit/bytes; (b) each file's failure block ordered by (line, column, rule id), file blocks in sorted order, no line twice; (c) an exception injected at a seeded rule callback surfaces as a plugin error naming rule and action. (d) every reported (line, column) exists in the scanned file, as an absolute statement on the executions performed (pool documents incl. separator edge documents), not a search over documents. Seeded sampling, not proof. Not claimed: 'no rule crashes on any document' (input-quantified).",
+        "Narrowed to the clauses that meet nondeterminism or faults: (a) repeatable - one scenario executed in 4 worlds differing only in hash-seed class, directory-listing permutation, temp names, cold/warm rule modules, argument order and copy implementation must give identical stdout/stderr/exit/bytes; (b) each file's failure block ordered by (line, column, rule id), file blocks in sorted order, no line twice; (c) an exception injected at a seeded rule callback surfaces as a plugin error naming rule and action. (d) every reported (line, column) exists in the scanned file, as an absolute statement on the executions performed (pool documents incl. separator / big-UTF-8 / identifier-collection edge documents), not a search over documents; (e) third-party probe rules loaded with permuted --add-plugin order must not change the built-in rules' reports. Seeded sampling, not proof. Not claimed: 'no rule crashes on any document' (input-quantified).",
         "deterministic simulation: multi-world differential replay + callback fault injection",
         "4.C07",
         "Trusts the simulator's seams (audit hook, listing permutation, seeded temp names, template hash-seed classes) to cover the nondeterminism pymarkdown meets; determinism self-test in setup.",
     ),
     "C10": (
         "exploration",
-        "Every file-system effect of scan / scan-stdin / list / fix / API runs (1-3 operations in one process, 1-5 files) is observed at the audit-event seam and by before/after snapshots: read-only operations perform no mutating event outside the private temp dir and leave nothing behind; in fix runs bytes changed <=> 'Fixed:' / files_fixed <=> fixed exit code; files whose reference scan shows no fixable failure stay byte-identical; probe-only runs match a hand-verifiable fix model; read-only operations are also judged under an injected contained rule/parser fault. Seeded sampling over the document pool.",
+        "Every file-system effect of scan / scan-stdin / list / fix / API runs (1-3 operations in one process, 1-5 files) is observed at the audit-event seam and by before/after snapshots: read-only operations perform no mutating event outside the private temp dir and leave nothing behind; in fix runs bytes changed <=> 'Fixed:' / files_fixed <=> fixed exit code; files whose reference scan shows no fixable failure stay byte-identical; probe-only runs match a hand-verifiable fix model; read-only and fix operations are also judged under injected contained faults (rule callback, parser, OS error incl. sticky EPERM at the replace step, log-file close); the same relation is checked through PyMarkdownApi in both schemes. Seeded sampling over the document pool.",
         "deterministic simulation: audit-event effect observer + snapshots, differential against solo reference runs, tiny fix model",
         "4.C10",
-        "Fix operations run fault-free here (C15 covers faulted fixes); read-only operations also run with a contained injected fault. sys.addaudithook sees every CPython-level file operation; effects through other processes are out of scope (pymarkdown starts none).",
+        "Faulted fix operations are judged here only for truthfulness (announced <=> changed <=> result); what a faulted fix may leave on disk is C15's clause. sys.addaudithook sees every CPython-level file operation; effects through other processes are out of scope (pymarkdown starts none).",
     ),
     "C13": (
         "exploration",
-        "Histories inside one forked process: one invocation over many files, 2-4 invocations with different configurations, one PyMarkdownApi object reused, histories containing a contained fault. Oracle: each operation == the same operation alone in a pristine process, each file of a multi-file run == that file alone. Quick tier additionally enumerates ALL ordered pairs of the hand-written carrier pool (scan and fix) as adjacent files of chain invocations; thorough does so for the whole 800-document pool; 'dirty' chains cut every carrier short mid-dispatch with an injected exception and compare the following document with its solo run.",
+        "Histories inside one forked process: one invocation over many files, 2-4 invocations with different configurations, one PyMarkdownApi object reused, histories containing a contained fault. Oracle: each operation == the same operation alone in a pristine process, each file of a multi-file run == that file alone. Quick tier additionally enumerates ALL ordered pairs of the hand-written carrier pool (scan and fix) as adjacent files of chain invocations; thorough does so for the whole 800-document pool; 'dirty' chains cut every carrier short mid-dispatch (token, line, provider read) with an injected exception, 'sweep' chains do so at every k-th callback ordinal, 'natural' chains use documents that make the parser fail by itself; a third of the chains run under a configuration that makes otherwise dormant per-file fields observable; for dirty/sweep chains the recorded callback trace of the following document (incl. line numbers) is compared with its solo trace as well as its output.",
         "deterministic simulation: seeded history exploration + exhaustive ordered-pair chains, differential against pristine-process reference executions",
         "4.C13",
         "Reference executions are the same code in a pristine process, so document-dependent parser/rule bugs cancel out; a carry-over that needs a document shape outside the pool is not found.",
     ),
     "C14": (
         "exploration",
-        "Call logs of recording rules (three probe plugins at first/middle/last dispatch position, scan-only or fix-capable at seeded levels, one possibly disabled; plus recorded built-in rules) are checked against a reference automaton (START, every token of the parser's stream in order, every line with exact text and number, COMPLETE, each exactly once; fix sub-passes of the same shape; disabled rule receives nothing). Expected tokens/lines are taken at other seams of the same execution (parser return value, bytes at open time); fix sub-passes are additionally compared with what a pristine scan of the same bytes delivers.",
+        "Call logs of recording rules (three probe plugins at first/middle/last dispatch position, scan-only or fix-capable at seeded levels, one possibly disabled; plus recorded built-in rules) are checked against a reference automaton (START, every token of the parser's stream in order, every line with exact text and number, COMPLETE, each exactly once; fix sub-passes of the same shape; disabled rule receives nothing). Expected tokens/lines are taken at other seams of the same execution (parser return value, bytes at open time); fix sub-passes are additionally compared with what a pristine scan of the same bytes delivers (token stream incl. pragma token rule). Disabling is exercised by id, name, wildcard, configuration file and extra --config; same-file histories (a file reached again through a symlink, scan after fix) use snapshots taken at operation start.",
         "deterministic simulation: recorded callback history checked against a reference automaton",
         "4.C14",
         "Fix-mode pass participation is not modelled (a sub-pass may be empty or a bare START); in fix passes line text is piped through fixers so only count and numbering are judged there.",
     ),
     "C15": (
         "fault_enumeration",
-        "Per seeded workload (1-5 files, scan/fix, with/without --continue-on-error) faults are taken from the sites its dry run reached: exception at rule callbacks (raise / run-then-raise), parser failure before parsing and at provider reads, undecodable file at each position, process kill (incl. after-open truncation and k-byte prefix) and OS errors at every audited file-system step of a fix incl. between emulated copy chunks, kills at rule-dispatch/parser sites, two faults per run, CLI and API, single-file-system and cross-device (EXDEV) worlds. Thorough tier enumerates ALL reached fs sites x actions, all callback kinds x first/middle/last, all parser calls, every file position. Oracle: exit = system error, file named, others == 'failing file absent' run, every file in {original, fully fixed}, no temp files.",
+        "Per seeded workload (1-5 files, scan/fix, with/without --continue-on-error) faults are taken from the sites its dry run reached: exception at rule callbacks (raise / run-then-raise), parser failure before parsing and at provider reads, undecodable file at each position, process kill (incl. after-open truncation and k-byte prefix) and OS errors at every audited file-system step of a fix incl. between emulated copy chunks, kills at rule-dispatch/parser sites, KeyboardInterrupt at the same sites, sticky (repeating) OS errors, faults at write/flush/close of every written file (write-proxy seam), two faults per run, CLI and API, hard-linked inputs, single-file-system and cross-device (EXDEV) worlds, chains where the fault is followed by further files. Thorough tier enumerates reached fs sites x actions, callback kinds x first/middle/last, parser calls and file positions per workload (capped at 120 faults per workload, seeded choice beyond that). Oracle: exit = system error, file named, others == 'failing file absent' run, every file in {original, fully fixed}, no temp files.",
         "deterministic simulation: per-workload fault-site enumeration with kill / OS-error / exception injection, differential oracle",
         "4.C15",
         "Process-crash model (completed syscalls durable; no power-loss model). Kill points at audited events and between emulated copy chunks; a kill inside one write is represented by synthesised truncated / prefix states.",
     ),
     "C16": (
         "exploration",
-        "One document through every entry point, each in a pristine process: file scan, scan-stdin over a simulated stream with seeded short reads (splits inside multi-byte characters and between CR and LF), scan_string, scan_path, in-place fix vs fix_string; again with each diagnostics option, incl. multi-file runs with a contained failure under --continue-on-error; under UTF-8 and legacy C locale templates. Failure tuples, fixed text (newline-normalised), exit status must agree; spool files must be gone.",
+        "One document through every entry point, each in a pristine process: file scan, scan-stdin over a simulated stream with seeded short reads (splits inside multi-byte characters and between CR and LF), scan_string, scan_path, in-place fix vs fix_string, rule selections expressed both as flags and repeated --set / API calls; again with each diagnostics option, incl. multi-file runs with a contained failure under --continue-on-error; under UTF-8 and legacy C locale templates. Failure tuples, fixed text (newline-normalised), exit status must agree; spool files must be gone.",
         "deterministic simulation: simulated stdin stream + locale classes, differential across entry points",
         "4.C16",
         "Under the C locale the stdin path is compared for ASCII documents only. Log lines are ignored, everything else must be identical.",
     ),
     "C18": (
         "exploration",
-        "Scenarios constructed to land in each outcome category in each listed way (clean/failing/fixable files, sub-commands, missing/ineligible paths, bad arguments, broken and corrupted configuration files, injected rule/parser faults, undecodable files, mixtures across 2-5 files), scheme selected by flag / --set / .pymarkdown JSON / YAML / pyproject.toml / --config / absent / flag together with a conflicting configuration value. Expected category is computed from construction + solo reference facts + injected faults, never from the run's output, and looked up in the table copied from the user guide.",
+        "Scenarios constructed to land in each outcome category in each listed way (clean/failing/fixable files, sub-commands, missing/ineligible paths, bad arguments, broken and corrupted configuration files, injected rule/parser faults also in a later file, undecodable files, mixtures across 2-5 files, sub-commands under a broken configuration), scheme selected by flag / --set / .pymarkdown JSON / YAML / pyproject.toml / --config / absent / flag together with a conflicting configuration value. Expected category is computed from construction + solo reference facts + injected faults, never from the run's output, and looked up in the table copied from the user guide.",
         "deterministic simulation: constructed outcome categories incl. injected faults vs documented table model",
         "4.C18",
         "Outcomes the table does not mention are not judged (pragma-error documents in success scenarios, fix runs that change nothing over unfixable failures, injected OS errors).",
     ),
     "C19": (
         "exploration",
-        "Seeded directory trees on the real scratch file system x 1-3 path arguments in several spellings x --recurse x --alternate-extensions for --list-files, scan, fix and list_path, under seeded directory-listing permutations, hash-seed classes and two argument orders; compared with a ~150-line executable model of the user guide's selection rules (set, once each, sorted, error short-circuit, no-files result).",
+        "Seeded directory trees on the real scratch file system x 1-3 path arguments in several spellings (relative, ./, .., absolute, `**/` and absolute globs, live and dangling symlinks, prefix-sharing sibling directories) x --recurse x --alternate-extensions for --list-files, scan, fix and list_path, under seeded directory-listing permutations, hash-seed classes and two argument orders; compared with a ~150-line executable model of the user guide's selection rules (set, once each, sorted, error short-circuit, no-files result).",
         "deterministic simulation: seeded trees with permuted listing order vs executable reference model",
         "4.C19",
-        "The model implements non-recursive glob semantics on the generated name alphabet only; symlinks and unreadable directories are not generated.",
+        "The model implements glob semantics on the generated name alphabet only; unreadable directories and symlink loops are not generated.",
     ),
 }
 
